@@ -185,10 +185,10 @@ def _style_declarations(base):
     """
     Recursively find all CSSStyleDeclarations.
     """
-    for rule in getattr(base, 'cssRules', ()):
-        yield from _style_declarations(rule)
     if hasattr(base, 'style'):
         yield base.style
+    for rule in getattr(base, 'cssRules', ()):
+        yield from _style_declarations(rule)
 
 
 def getUrls(sheet):
